@@ -674,6 +674,113 @@ Section Den.
 End Den.
 
 (* ================================================================================================ *)
+(** * PSequence over a list of scalars *)
+Lemma repeat_list_length {A} (l : list A) : forall n, List.length (repeat_list l n) = (n * List.length l)%nat.
+Proof. induction n as [|n IH]; [reflexivity|]. cbn [repeat_list]. rewrite app_length, IH. lia. Qed.
+
+Lemma nth_error_repeat_list {A} (l : list A) : forall n q i, (q < n)%nat -> (i < List.length l)%nat ->
+  nth_error (repeat_list l n) (q * List.length l + i) = nth_error l i.
+Proof.
+  induction n as [|n IH]; intros q i Hq Hi; [lia|]. cbn [repeat_list]. destruct q as [|q].
+  - cbn [Nat.mul Nat.add]. apply nth_error_app1. exact Hi.
+  - rewrite nth_error_app2 by nia. replace (S q * List.length l + i - List.length l)%nat with (q * List.length l + i)%nat by nia.
+    apply IH; lia.
+Qed.
+
+Lemma update_nth_same {A} : forall (l : list A) n x, nth_error l n = Some x -> update_nth n x l = l.
+Proof.
+  induction l as [|y l IH]; intros n x H; [destruct n; reflexivity|]. destruct n; cbn in *.
+  - inversion H; reflexivity.
+  - f_equal. apply IH. exact H.
+Qed.
+
+Lemma py_index_nat {A} (l : list A) (i : nat) : (i < List.length l)%nat -> py_index l (Z.of_nat i) = nth_error l i.
+Proof.
+  intro H. unfold py_index. destruct ((0 <=? Z.of_nat i) && (Z.of_nat i <? Z.of_nat (List.length l))) eqn:E; [|lia].
+  rewrite Nat2Z.id. reflexivity.
+Qed.
+Lemma py_index_pos_nat {A} (l : list A) (i : nat) : py_index_pos l (Z.of_nat i) = i.
+Proof. unfold py_index_pos. destruct (0 <=? Z.of_nat i) eqn:E; [apply Nat2Z.id | lia]. Qed.
+
+Section Seq.
+  Variable binop : op -> val -> val -> outcome val.
+  Variable LMAX : nat.
+  Notation step := (step binop LMAX).
+  Notation value := (value binop LMAX).
+  Notation Den := (Den binop LMAX).
+
+  Lemma step_sequence_eq f l repeats rcount pos :
+    step (S f) (PSequence (AL l) repeats rcount pos) =
+      (let '(orep, repeats') := value f repeats in
+       match orep with
+       | Yield vrep =>
+           let stop_test := if zlen l =? 0 then Yield true else cmp OGe (VInt rcount) vrep in
+           match stop_test with
+           | Yield true => (Stop, PSequence (AL l) repeats' rcount pos)
+           | Yield false =>
+               match py_index l pos with
+               | None => (Raise IndexError, PSequence (AL l) repeats' rcount pos)
+               | Some a =>
+                   let '(o, a') := value f a in
+                   let l' := update_nth (py_index_pos l pos) a' l in
+                   match o with
+                   | Yield v =>
+                       if pos + 1 >=? zlen l
+                       then (Yield v, PSequence (AL l') repeats' (rcount + 1) 0)
+                       else (Yield v, PSequence (AL l') repeats' rcount (pos + 1))
+                   | _ => (o, PSequence (AL l') repeats' rcount pos)
+                   end
+               end
+           | oc => (ocast oc, PSequence (AL l) repeats' rcount pos)
+           end
+       | _ => (orep, PSequence (AL l) repeats' rcount pos)
+       end).
+  Proof. reflexivity. Qed.
+
+  (* PSequence(list of scalars, repeats): the list, repeats times *)
+  Theorem sequence_den f (l : list val) (r : nat) :
+    Den (S (S f)) (PSequence (AL (map AV l)) (AV (VInt (Z.of_nat r))) 0 0) (Fin (ref_sequence l r)).
+  Proof.
+    set (L := List.length l). set (ml := map AV l).
+    assert (Hml : List.length ml = L) by (unfold ml; apply map_length).
+    apply Den_sim with (R := fun j p =>
+      (exists q i, j = (q * L + i)%nat /\ (i < L)%nat /\ (q < r)%nat /\
+                   p = PSequence (AL ml) (AV (VInt (Z.of_nat r))) (Z.of_nat q) (Z.of_nat i)) \/
+      ((r * L <= j)%nat /\ (L = O \/ p = PSequence (AL ml) (AV (VInt (Z.of_nat r))) (Z.of_nat r) 0) /\
+       (L = O -> p = PSequence (AL ml) (AV (VInt (Z.of_nat r))) 0 0))).
+    - destruct (Nat.eq_dec L 0) as [E|E].
+      + right. split; [rewrite E; lia|]. split; [left; exact E | reflexivity].
+      + destruct r as [|r].
+        * right. split; [lia|]. split; [right; reflexivity | intro; contradiction].
+        * left. exists O, O. repeat split; try lia; reflexivity.
+    - intros j p [(q & i & -> & Hi & Hq & ->) | (Hj & Hp & Hp0)].
+      + rewrite step_sequence_eq, value_av. unfold zlen. rewrite Hml.
+        destruct (Z.of_nat L =? 0) eqn:E0; [lia|]. rewrite cmp_ge_int.
+        destruct (Z.of_nat r <=? Z.of_nat q) eqn:E1; [lia|].
+        destruct (nth_error l i) as [v|] eqn:Ev; [|apply nth_error_None in Ev; fold L in Ev; lia].
+        assert (Hn : nth_error ml i = Some (AV v)) by (unfold ml; rewrite nth_error_map, Ev; reflexivity).
+        rewrite py_index_nat by lia. rewrite Hn, value_av, py_index_pos_nat.
+        rewrite (update_nth_same ml i (AV v) Hn).
+        assert (Hat : at_ (Fin (ref_sequence l r)) (q * L + i) = Yield v).
+        { cbn [at_]. unfold ref_sequence, L. rewrite nth_error_repeat_list by assumption. rewrite Ev. reflexivity. }
+        rewrite Hat. destruct (Z.of_nat i + 1 >=? Z.of_nat L) eqn:E2; cbn [fst snd]; (split; [reflexivity|]).
+        * assert (S i = L) by lia. destruct (Nat.eq_dec (S q) r) as [Er|Er].
+          -- right. split; [nia|]. split; [right; f_equal; lia | intro HL; exfalso; clear - HL Hi; lia].
+          -- left. exists (S q), O. repeat split; try lia. f_equal. lia.
+        * left. exists q, (S i). repeat split; try lia. f_equal. lia.
+      + assert (Hat : at_ (Fin (ref_sequence l r)) j = Stop).
+        { apply at_fin_ge. unfold ref_sequence. rewrite repeat_list_length. fold L. exact Hj. }
+        rewrite Hat. destruct (Nat.eq_dec L 0) as [E|E].
+        * rewrite (Hp0 E), step_sequence_eq, value_av. unfold zlen. rewrite Hml, E. cbn [Z.of_nat Z.eqb fst snd].
+          split; [reflexivity|]. right. split; [clear - E; nia|]. split; [left; first [exact E | reflexivity] | reflexivity].
+        * destruct Hp as [Hp | ->]; [contradiction|]. rewrite step_sequence_eq, value_av. unfold zlen. rewrite Hml.
+          destruct (Z.of_nat L =? 0) eqn:E0; [lia|]. rewrite cmp_ge_int.
+          destruct (Z.of_nat r <=? Z.of_nat r) eqn:E1; [|lia]. cbn [fst snd]. split; [reflexivity|].
+          right. split; [lia|]. split; [right; reflexivity | intro; contradiction].
+  Qed.
+End Seq.
+
+(* ================================================================================================ *)
 (** * The reference interpreter is compositional: [init e] denotes [ref_eval n e], by induction on the nesting *)
 Section Compose.
   Variable LMAX : nat.
